@@ -200,6 +200,30 @@ namespace hs
         p.set("seed", (long long)seed);
         p.set("hseed", (long long)(r.next() >> 2));
 
+        if (profile == "C15X")
+        {
+            // exit-time reports of the low-level allocators: a child process allocates, frees, leaves some, exits
+            p.set("mode", "exitleak");
+            std::size_t n = r.range(0, 30);
+            unsigned    alloc_mask = unsigned(r.range(1, 15)); // which of the four allocators are used at all
+            for (std::size_t i = 0; i < n; ++i)
+            {
+                if (r.chance(3, 5))
+                {
+                    int w = int(r.below(4));
+                    if (!(alloc_mask & (1u << w)))
+                        continue;
+                    p.add("xa", {w, (long long)r.size_biased(0, 2999)});
+                }
+                else
+                    p.add("xf", {(long long)r.below(100)});
+            }
+            if (r.chance(1, 3)) // balanced: everything returned
+                for (std::size_t i = 0; i < n; ++i)
+                    p.add("xf", {0});
+            return p;
+        }
+
         //--- which SUT ---
         std::string sut;
         auto any_user = [&]() -> std::string
@@ -259,6 +283,22 @@ namespace hs
             sut = any_user();
             if (has(sut, "ll."))
                 sut = pick(r, POOLS);
+        }
+        else if (profile == "C16")
+        {
+            // pools (small: foreign / misplaced pointers; all: double free) and stacks (bad markers)
+            switch (r.below(3))
+            {
+            case 0:
+                sut = r.pick<const char*>({"pool.small.G2", "pool.small.FX", "pool.small.ST", "pool.small.DEF",
+                                           "pool.small.G32", "pool.small.VB"});
+                break;
+            case 1:
+                sut = pick(r, POOLS);
+                break;
+            default:
+                sut = pick(r, STACKS);
+            }
         }
         else if (profile == "C17") // half: low-level allocators with fence corruption; half: fill patterns anywhere
             sut = r.chance(1, 2) ? pick(r, LOWS) : any_user();
@@ -544,6 +584,17 @@ namespace hs
                               (long long)r.below(2), (long long)r.size_biased(0, 4095), (long long)r.below(256)});
                 break;
             }
+        }
+        if (profile == "C16")
+        {
+            // the complete misuse table (kind x position class) on the state the valid prefix left; every case
+            // runs in its own forked child, so none of them disturbs the others
+            for (int kind = 0; kind < 3; ++kind)
+                for (int pos = 0; pos < 4; ++pos)
+                    p.add("bad", {kind, pos, (long long)r.below(1000)});
+            for (int k = 0; k < 4; ++k)
+                p.add("badblk", {k});
+            return p;
         }
         // C04 / C15 endings
         if (profile == "C04" || (w_cap && r.chance(1, 2)))
